@@ -418,6 +418,45 @@ func (ex *Exec) fsGet(name string) *fsFile {
 
 func registerKeygenModels(P *Program) {
 	m := P.models
+	// common.FastMod.Set with a symbolic modulus: the fast path (p = 2^b - c) is what C19/FastMod checks
+	// against plain reduction; here the structure is put into its general mode, where Mod is big.Int.Mod
+	m["(*"+TargetModule+"/internal/common.FastMod).Set"] = func(ex *Exec, fn *ssa.Function, args []Value) (Value, bool) {
+		pb, ok := bigOf(args[1])
+		if !ok {
+			return nil, false
+		}
+		if _, isConst := pb.I.ConstInt(); isConst {
+			return nil, false // concrete moduli run the real code
+		}
+		so := args[0].(Pointer).C.V.(*StructObj)
+		so.F[0].V = smt.False // enabled
+		so.F[1].V = pb         // p
+		ex.stubs["common.FastMod with a symbolic modulus is plain reduction (its fast path is the subject of C19/FastMod)"] = true
+		return nil, true
+	}
+	// go-exptable: a table remembers base and modulus; Exp is modular exponentiation
+	m["(*github.com/bwesterb/go-exptable.Table).Compute"] = func(ex *Exec, fn *ssa.Function, args []Value) (Value, bool) {
+		o := args[0].(Pointer).C.V.(*Opaque)
+		b, _ := bigOf(args[1])
+		n, _ := bigOf(args[2])
+		o.Data = [2]BigVal{b, n}
+		ex.stubs["go-exptable: Table.Exp(e) = base^e mod modulus"] = true
+		return nil, true
+	}
+	m["(*github.com/bwesterb/go-exptable.Table).Exp"] = func(ex *Exec, fn *ssa.Function, args []Value) (Value, bool) {
+		o := args[0].(Pointer).C.V.(*Opaque)
+		d, ok := o.Data.([2]BigVal)
+		if !ok {
+			ex.goPanic("exptable.Table used before Compute")
+		}
+		e, _ := bigOf(args[2])
+		ret := args[1].(Pointer)
+		if ret.C == nil {
+			ex.goPanic("nil result operand (exptable.Table.Exp)")
+		}
+		ret.C.V = ex.bigExp(d[0], e, ex.newBig(d[1]))
+		return nil, true
+	}
 	// safeprime.GenerateConcurrent: the worker pool is replaced by a channel that yields, on every
 	// receive, a fresh safe prime of the requested size (top two bits set, as prepareBytes ensures)
 	safePrime := func(ex *Exec, bits int64) Value {
